@@ -27,7 +27,8 @@ META = {
         "are word-anchored; a dictated layout reaches every chunk parser."
         ' Also: the stand-alone through_regex is case-closed w.r.t. the regexes that embed it; every Twp/Rge twprge_regex can capture is a valid TRS; layout if/elif chains without else are exhaustive; helpers that are handed the layout are included in the dispatch table check.'
         " Round 7: cleanup_desc word tests act on lower-cased text and never remove a word from the front; possessive quantifiers are modelled exactly for single-character bodies (compact 't154nr97w' is part of the spelling family)."
-        " Round 8: deduce_layout's section search finds every spelling (incl. '§'); reduce_whitespace rewrites whitespace only."),
+        " Round 8: deduce_layout's section search finds every spelling (incl. '§'); reduce_whitespace rewrites whitespace only."
+        ' Round 9: deduce_layout searches the whole text; no de-duplication / re-ordering idiom on the parse path.'),
     'families': ['TBL', 'RX-LANG', 'ORDER'],
 }
 
